@@ -12,6 +12,8 @@
 (*                   is named by the claim's last durable spec.resourceRef *)
 (*  RefFirst.Bind    an existing XR whose claimRef becomes this claim in a *)
 (*                   step of the claim's reconcile is named likewise       *)
+(*  RefFirst.Stable  a durably recorded reference is never replaced by      *)
+(*                   another name (a retry reuses the name)                *)
 (*  NoHijack.Write   no applied write / delete by the claim's reconcile    *)
 (*                   addresses an XR whose claimRef named another claim    *)
 (*  NoHijack.Frozen  every XR bound to another claim is byte-identical     *)
@@ -38,6 +40,9 @@ OneXR(e) == Cardinality({i \in DOMAIN e.post.xrs : e.post.xrs[i].cref = "this"})
 \* ---- step formulas (p = previous event of the same run, e = this event)
 RefFirstCreate(p, e) == ByClaim(e) => \A id \in Ids(e) \ Ids(p) : NamesIt(e, id)
 RefFirstBind(p, e) == ByClaim(e) => \A id \in (Mine(e) \ Mine(p)) \cap Ids(p) : NamesIt(e, id)
+\* a retry reuses the recorded name: once the claim durably names an XR, a step of its reconcile never makes it name another
+\* (added after the seeded change C06-m1 was missed: a syncer that generated a fresh name when the referenced XR was not found)
+RefStable(p, e) == (ByClaim(e) /\ p.post.claim.exists /\ e.post.claim.exists /\ p.post.claim.ref # "none") => e.post.claim.ref = p.post.claim.ref
 NoHijackWrite(e) == (ByClaim(e) /\ e.write /\ e.applied /\ e.target # "none") => e.preRef # "other"
 NoHijackFrozen(p, e) == ByClaim(e) => \A y \in Others(p) : \E x \in XRs(e) : x.id = y.id /\ x.rv = y.rv /\ x.uid = y.uid /\ x.cref = "other" /\ x.del = y.del
 
@@ -50,6 +55,7 @@ Check(i) ==
         LET p == Trace[i - 1] IN
         /\ (RefFirstCreate(p, e) \/ Viol("RefFirst.Create", i))
         /\ (RefFirstBind(p, e) \/ Viol("RefFirst.Bind", i))
+        /\ (RefStable(p, e) \/ Viol("RefFirst.Stable", i))
         /\ (NoHijackFrozen(p, e) \/ Viol("NoHijack.Frozen", i)))
 
 Init == l = 0
